@@ -446,3 +446,9 @@ hash buckes bitmap:
 +--------+-------+-------------+-----------------------------------+
 ```
 */
+
+// verification hook: layout-probe
+#[cfg(abyssiniandb_verif)]
+pub(crate) fn verif_capacity_to_buckets_size(cap: u64) -> u64 {
+    capacity_to_buckets_size(cap)
+}
